@@ -48,6 +48,10 @@ def remove_task(spec, tn):
                          "ForceScheduleNOptionalTasks") and tn in c.get("tasks", []):
             c = dict(c, tasks=[x for x in c["tasks"] if x != tn])
             if not c["tasks"]:
+                if c["kind"] == "ScheduleNTasksInTimeIntervals":
+                    m, nn = c.get("mode") or "exact", c["n"]
+                    if not {"exact": nn == 0, "min": nn <= 0, "max": True}[m]:
+                        return None      # "n of no task" cannot be declared: nothing to compare with
                 continue
             out.append(c)
         elif names_task(c, tn) or tn in json.dumps(c.get("cond", "")) or tn in json.dumps(c.get("expr", "")):
